@@ -83,6 +83,37 @@ func genFormats(c *Ctx) error {
 			c.Nontrivial(fmt.Sprintf("directed|%s|%d", variant, ps))
 		}
 	}
+	// directed: the journalled original of page 1 comes back with its page-size / page-count header
+	// field zeroed (the record checksum samples only every 200th byte, so such damage passes it):
+	// the rollback writes that page into the database; the restart must answer, not panic
+	for _, ps := range []int{512, 4096} {
+		for _, fld := range [][2]int{{16, 2}, {28, 4}, {16, 16}} {
+			cs := c.Begin()
+			do := func(op string) string { c.Count("op." + strings.SplitN(op, " ", 2)[0]); return cs.Do(op) }
+			p := newPager(r, ps, do)
+			do("open primary")
+			do("createdb")
+			p.journalTx(p.randomShape(5), 0, 0)
+			p.journalTx(p.randomShape(3), 0, 0)
+			hot := *p
+			hot.do = func(op string) string {
+				if op == "jrm" || op == "jtr" || op == "jw 0 z28" || strings.HasPrefix(op, "dbt ") || strings.HasPrefix(op, "unlock") {
+					return "skipped"
+				}
+				return do(op)
+			}
+			hot.journalTx(txShape{newN: len(p.img), pages: map[int]bool{1: true}, commit: true}, 0, 0)
+			do("fsize journal")
+			do(fmt.Sprintf("corrupt journal zero %d %d", 512+4+fld[0], fld[1]))
+			cs.Do("ref-unknown")
+			res := do("reopen")
+			c.Count("reopen." + firstWords(res, 2))
+			do("state")
+			do("raw")
+			cs.End()
+			c.Nontrivial(fmt.Sprintf("directed|page1-field-%d-zero|%d", fld[0], ps))
+		}
+	}
 	for i := 0; i < n; i++ {
 		ps := pick(r, []int{512, 1024, 4096})
 		cs := c.Begin()
